@@ -19,6 +19,10 @@ OPT_NOTE = ("optimiser model (coq/model/Optimiser.v) replayed bit-for-bit agains
             "MCOptimiser::optimise_state on scripted and real states")
 
 PROPS = {
+    "C01": dict(props_file="props/C01.v", engines=[("geom", dict(quick=[("C01", 20000)], thorough=[("C01", 1500000), ("C01a", 300000)]))],
+                design="DESIGN.md section 4 C01"),
+    "C12": dict(props_file="props/C12.v", engines=[("geom", dict(quick=[("C12", 30000)], thorough=[("C12", 2000000)]))],
+                design="DESIGN.md section 4 C12"),
     "C04": dict(props_file="props/C04.v", needs_gen=True,
                 engines=[("geom", dict(quick=[("C04", 4000)], thorough=[("C04", 200000)])), ("tables", dict(groups=True))],
                 design="DESIGN.md section 4 C04"),
